@@ -271,6 +271,8 @@ def consumers_rule(ctx):
         fv = ctx.view(path)
         if fv is not None:
             rule_flush_pairing(d, "C05.F", fv, who)
+            rule_ordered_collects(d, "C05.O", fv, 2 if who == "compute_coverages" else 1)    # no record dropped or doubled
+            rule_sink_sequential(d, "C05.O", fv, who)                                         # between the batch and the file
     fm = ctx.view(c05.MMAP)
     if fm is not None:
         rule_taken_reaches(d, "C05.T", fm, "vectorise_mmap",
